@@ -289,7 +289,7 @@ func init() {
 		RealStub: map[string]string{"verify.TdxQuote/RawTdxQuote": "real", "abi": "real", "pcs": "real", "Intel CA / platform+QE / PCS": "stub (world)", "clock": "Options.Now from the simulated clock", "SimpleHTTPSGetter": "not exercised"},
 		Runs: func(tier string) int {
 			if tier == "thorough" {
-				return 6000
+				return 20000
 			}
 			return 400
 		},
